@@ -8,7 +8,7 @@ import PonyVerif.Model.KeyIndex
                     | {"k":"load","cls":0,"pk":[1],"vals":[5,null,"NL"],"used":[0],"unpickling":false}
                     | {"k":"set","o":0,"changes":[[0,5],[1,null]]} | {"k":"read","o":0,"a":1} | {"k":"delete","o":0}
                     | {"k":"saveCreated","o":0,"newId":7|null} | {"k":"saveUpdated","o":0} | {"k":"saveDeleted","o":0}
-                    | {"k":"find","cls":0,"pk":[1]|null,"kw":[[0,5]]} | {"k":"proxy","o":0}], ..]}
+                    | {"k":"find","cls":0,"pk":[1]|null,"kw":[[0,5]]} | {"k":"proxy","o":0} | {"k":"markRead","os":[0,1],"attrs":[0]}], ..]}
             (one group = the model ops of ONE real call; a group stops at its first error)
   reply   : {"steps":[{"err":null|"CacheIndexError"..,"yields":[null|id..],"ran":k,"inv":bool,"objs":[..],"pk":[[key,o]..],"ixs":[[[key,o]..]..],"queue":[..]}]}
 -/
@@ -84,6 +84,7 @@ def opOfJson (j : Json) : Except String Op := do
         pure (a, (← (fromJson? v : Except String Int)))
       pure (.find (← argNat j "cls") (← optKey j "pk") kw)
   | "proxy" => pure (.proxy (← argNat j "o"))
+  | "markRead" => pure (.markRead (← natsOfJson (← j.getObjVal? "os")) (← natsOfJson (← j.getObjVal? "attrs")))
   | _ => throw s!"unknown op kind {k}"
 
 def errName : Err → String
